@@ -438,6 +438,7 @@ std::string generate_alone(const Op& op) {
   else {
     Rng r(sim::mix64(uint64_t(op.a[1])));
     gen::GenOptions o; o.steps = size_t(5 + op.a[2] % 60);
+    if ((op.a[3] & 2) && op.a[2] % 3 == 0) { o.steps += 250; o.extra_labels = uint32_t(140 + op.a[2] % 200); }   // label / fixup tables beyond 2 KiB: dynamic arena blocks
     gen::Program p = gen::generate_program(r, t, o);
     gen::ApplyCtx ctx;
     if (t == gen::Target::kA64) {
